@@ -31,7 +31,7 @@ CHECKS = {
   note="the by-value conversions are the oracle by definition of the property; after a panicking conversion only ownership (no double drop, no use of dead values, caller-owned buffers still fully live) is checked because the documentation leaves the values unspecified; Miri is an additional memory-safety oracle when available; a simulator process killed by a signal is reported as a violation pinned on the crashing plan",
   tech="deterministic simulation with fault injection: seeded guard histories vs. by-value model, unwind/leak faults, exhaustive crash points in in-place maps, Miri as UB oracle"),
 "C18": dict(
-  text="seeded search over operation histories (<=50 ops, <=60 elements; a quarter of the thorough plans <=130 ops, <=250 elements) on every struct-of-arrays instantiation (26 color types x plain/alpha/alpha-of-another-element-type), refined step by step against a Vec model; iterators are driven through next/next_back/nth/nth_back/len/size_hint and ended by drop/exhaust/count/forget/last/fold/rfold/rev-skip-step_by; the Box/array/slice/mut-slice forms get up to three actions on one instance and are read back through themselves; iterator searching methods (find, rfind, position, rposition, any, all) comparing consumers (eq, ne, also against an iterator with an inexact size hint) and selecting consumers (max_by, min_by, max_by_key, min_by_key over a rank with ties); ranged get/get_mut also where alpha has another element type; extend/collect sources with exact, absent and loose size hints, also sources that are not fused (reference: Vec fed from an identical source, also for how much of the source is taken); cancel/leak/unwind/contract-panic faults placed inside live drains and iterators; a clean batch is evidence, not proof",
+  text="seeded search over operation histories (<=50 ops, <=60 elements; a quarter of the thorough plans <=130 ops, <=250 elements) on every struct-of-arrays instantiation (26 color types x plain/alpha/alpha-of-another-element-type), refined step by step against a Vec model; iterators are driven through next/next_back/nth/nth_back/len/size_hint and ended by drop/exhaust/count/forget/last/fold/rfold/rev-skip-step_by; the Box/array/slice/mut-slice forms get up to three actions on one instance and are read back through themselves; iterator searching methods (find, rfind, position, rposition, any, all) comparing consumers (eq, ne, also against an iterator with an inexact size hint) and selecting consumers (max_by, min_by, max_by_key, min_by_key over a rank with ties); folding and adapting consumers (reduce, try_fold/try_rfold breaking off mid-way with the iterator used further, partition, step_by, skip, zip, chain, take, last, count, is_sorted_by) through one generic function run over the collection's iterator and the vector's; ranged get/get_mut also where alpha has another element type; extend/collect sources with exact, absent and loose size hints, also sources that are not fused (reference: Vec fed from an identical source, also for how much of the source is taken); cancel/leak/unwind/contract-panic faults placed inside live drains and iterators; a clean batch is evidence, not proof",
   ref="DESIGN.md §4.2",
   note="trusts the Vec, slice and Drain of std as the reference; items are numbered so each component slot has its own value set; after a leaked drain only equal component lengths and an intact prefix are demanded (std leaves the amount lost unspecified)",
   tech="deterministic simulation with fault injection: seeded histories vs. Vec reference model, unwind/leak/cancel faults, minimised replayable plans"),
